@@ -2,7 +2,8 @@
 
 Only the OS-facing methods of `Runner` are replaced (scripted pipes / process / input stream);
 `threading.Timer`, `threading.Event`, `time.sleep` and `ExceptionHandlingThread.join` are shimmed
-inside this process so that every access to shared state is a *gate*: the actor parks there until
+inside this process (and `os.kill` is routed to the scripted child) so that every access to shared
+state is a *gate*: the actor parks there until
 the scheduler grants it one step.  A schedule is a list of tokens
 
     main out err stdin timer            one step of that thread
@@ -15,16 +16,19 @@ the same word.  run/_run_body/_finish/wait/_handle_output/read_proc_output/handl
 read_our_stdin/respond/_collate_result/_thread_join_timeout/stop/timed_out are the code under test.
 """
 import io
+import os
 import threading
 import time as _time
 import types
 
 import common  # noqa: F401  (puts /repo on sys.path)
 import invoke.runners as R
-from invoke import Context, Config, Runner
+from invoke import Context, Config
+from invoke.runners import Local
 from invoke.util import ExceptionHandlingThread
 
 ACTOR = {"handle_stdout": "out", "handle_stderr": "err", "handle_stdin": "stdin"}
+FAKE_PID = 424242
 JOIN_PATIENCE = 3  # polls before a join-with-timeout gives up (Lean: joinPatience)
 
 
@@ -229,7 +233,10 @@ def make_classes(sched, env):
             sched.gate("main", "timed_out?")
             return self.state in ("armed", "firing")
 
-    class GRunner(Runner):
+    class GRunner(Local):
+        """the REAL `Local` runner with only its OS-facing primitives replaced: everything that decides
+        (run/_finish/wait/stop, the handle_* loops, start_timer/timed_out, `Local.kill`'s bookkeeping)
+        is the code under test"""
         input_sleep = 0
 
         def __init__(self, ctx, pty=False, start_fails=False, read_size=1000):
@@ -245,6 +252,8 @@ def make_classes(sched, env):
         def start(self, command, shell, env_):
             if self._start_fails:
                 raise OSError("scripted start failure")
+            self.pid = FAKE_PID
+            self.process = types.SimpleNamespace(pid=FAKE_PID)
 
         def _read(self, s, n):
             while True:
@@ -293,11 +302,23 @@ def make_classes(sched, env):
             return env.rc
 
         def kill(self):
+            # the Timer thread's second step: the whole of the real `Local.kill` (its bookkeeping and
+            # the os.kill it may issue, which lands in `OsShim.kill` below)
             sched.gate("timer", "kill")
+            Local.kill(self)
+
+    class OsShim:
+        def __getattr__(self, name):
+            return getattr(os, name)
+
+        def kill(self, pid, sig):
+            assert pid == FAKE_PID, pid
             env.kills += 1
             if env.main_returned:
                 env.kills_after_return += 1
             env._exit(-9)
+
+    GRunner.os_shim = OsShim()
 
     return GThread, GEvent, GTimer, GRunner
 
@@ -330,10 +351,10 @@ def run_schedule(schedule, out=(), err=(), in_script=None, in_tty=False, pty=Fal
         env = Env(out=out, err=err, hold_open=hold_open)
         GThread, GEvent, GTimer, GRunner = make_classes(sched, env)
         shim_threading = types.SimpleNamespace(Timer=GTimer, Event=threading.Event, Thread=threading.Thread,
-                                               local=threading.local)
+                                               local=threading.local, Lock=threading.Lock)
         shim_time = types.SimpleNamespace(sleep=lambda x: None, time=_time.time)
-        old = (R.threading, R.time, R.ExceptionHandlingThread)
-        R.threading, R.time, R.ExceptionHandlingThread = shim_threading, shim_time, GThread
+        old = (R.threading, R.time, R.ExceptionHandlingThread, R.os)
+        R.threading, R.time, R.ExceptionHandlingThread, R.os = shim_threading, shim_time, GThread, GRunner.os_shim
         obs = {}
         try:
             r = GRunner(Context(Config()), pty=pty, start_fails=start_fails, read_size=read_size)
@@ -408,5 +429,5 @@ def run_schedule(schedule, out=(), err=(), in_script=None, in_tty=False, pty=Fal
                 _sys.stdout, _sys.stderr = old_std
             except NameError:
                 pass
-            R.threading, R.time, R.ExceptionHandlingThread = old
+            R.threading, R.time, R.ExceptionHandlingThread, R.os = old
         return obs
